@@ -88,6 +88,13 @@ CLAIMED = {
             "Trusted: Coq kernel; small hand model coq/Model/AdevDet.v of the default branch, tangent helpers and cond branch; harness/worker_adev.py compares 15 deterministic program "
             "templates with jax.jvp/jax.grad (tolerance 1e-5) and the canonicalisation helpers with the model. No axioms.",
             "Coq proof over an abstract-primitive model + differential comparison with jax.jvp/jax.grad", "7/C15"),
+    "C17": ("Theorems for ALL targets, families, constraints, arguments and draws: objective = log p(merged choices) - log q(z) (C17_elbo_value); equal to log p(x) for every draw when q is the "
+            "exact posterior (C17_elbo_tight); on overlapping addresses the family's choice wins in the merge; optimize_vi applies params + lr*gradient at every iteration, the history holds every "
+            "iterate and the final parameters are the last one, for every gradient estimator, learning rate and iteration count (C17_vi_rule, induction over iterations). "
+            "NOT mechanised (partial): unbiasedness of the objective and of its gradient (C11's theorem for finite flip programs), the Jensen bound, the two Gaussian families.",
+            "Trusted: Coq kernel; model coq/Model/Vi.v on top of the GFI model; harness/worker_vi.py builds the family from a REINFORCE primitive with scripted outcomes (public reinforce()), "
+            "values divided by ln 2; optimize_vi compared on deterministic quadratic objectives with tolerance 1e-4. No axioms.",
+            "Coq proof (corollaries of the GFI theorems; induction over iterations) + differential correspondence (vm_compute)", "7/C17"),
     "C09": ("Theorems: accept iff log u < min(0, log_alpha) (all kernels); the MH balance identity a*min(1,b/a) = b*min(1,a/b); the weight mh uses is the MH log ratio of the "
             "regenerate-from-prior proposal (via C04); mala's log_alpha is the MH log ratio of the Langevin proposal with drift eps^2/2*grad, scale eps, one noise per coordinate; "
             "n leapfrog steps are reversible under momentum flip for ANY gradient function over ANY commutative ring; rejected moves return the input; unselected coordinates untouched. "
